@@ -201,6 +201,20 @@ EXPLANATION += ("  LEFTOVERS: Screen.concat and Screen.single_treatment_effects 
                 "trusted: the translator and the primitives named in ASSUMPTIONS (len, l[0], l[1:], dispatch of .combine to the translated Screen.combine with a "
                 "fresh identity, the three column attributes, the effect-array function and its KeyError tag as parameters).")
 
+# ---- wave 6 of the source link: the attribute getters of Screen, sample_space_size / treatment_space_size (Proofs/C14Source_ScreenAttrs.v, _SpaceSize.v) ----
+THEOREMS.update({
+    "C14_model_is_source_screen_attributes": "the translations of the eleven attribute properties of Screen (plate_ids, sample_ids, treatment_ids, sample_names, treatment_names, treatment_doses, observations, observation_mask, treatment_mapping, sample_mapping, plate_mapping: `return self._<attr>`) return the corresponding field of the model screen (per-row arrays = columns of its rows, 2-d arrays with its arity as column count, id arrays and mappings as stored)",
+    "C14_source_view_attributes_of_parent": "consistency with C14_model_is_source_attributes (which read the parent's attributes as primitives): with the translated Screen getters in their place, a view's property = mask selection of the parent's property; the three mappings are handed through",
+    "C14_model_is_source_space_sizes": "the translations of ScreenBase.sample_space_size / treatment_space_size (len(self.<x>_mapping[0]) through the translated mapping property) on a Screen object and on a ScreenSubset / Plate object = the number of rows of the (parent) screen's sample / treatment mapping",
+})
+ASSUMPTIONS += [
+    "source links of the Screen getters and the two space sizes (harness/src_functions.py LS_SCREEN_GETTERS / LS_SPACE_SIZES -> Generated/SrcScreenAttrs.v): trusted are the translator and, per private attribute, ONE read-only field template: self._plate_ids / _sample_ids / _treatment_ids / _sample_names / _treatment_names / _treatment_doses / _observations / _observation_mask / _treatment_mapping / _sample_mapping / _plate_mapping of a Screen object denote s_pids / s_sids / s_tids / the sample-name column / the (arity, name rows) and (arity, dose rows) arrays / the observation column / the mask column / s_tmap / s_smap / s_pmap of its contents (a store to one of them is not a term: refused); for the sizes m[0] of a mapping = the names column of its rows and len; self.sample_mapping / self.treatment_mapping run the translated properties (of Screen, or of ScreenSubset from the C14 block).  WHICH private attribute each public property returns (and that it returns it unchanged) is read from the source.",
+]
+EXPLANATION += ("  SCREEN GETTERS: the eleven `return self._<attr>` properties of Screen and ScreenBase.sample_space_size / treatment_space_size (on both "
+                "kinds of receiver) are re-translated on every run (Generated/SrcScreenAttrs.v; C14_model_is_source_screen_attributes, "
+                "_space_sizes, C14_source_view_attributes_of_parent); trusted: the translator and the read-only field templates named in ASSUMPTIONS.")
+
+
 def ref_eval(tree, acc):
     """(parent index, ascending list of selected parent row indices); RefError where the API must refuse"""
     op = tree[0]
